@@ -25,12 +25,13 @@ func init() {
 		Scenarios: []Scenario{{Name: "S-NEST", Weight: 3, Run: c11Run}, {Name: "S-ORDER/after-loop-replacement", Weight: 1, Run: c11OrderRun},
 			{Name: "S-SERVER/shared-socket-reader", Weight: 1, Run: c11ServerRun},
 			{Name: "S-NEST/request-limiter", Weight: 1, Run: c11LimitedRun},
+			{Name: "S-NEST/pong-callback", Weight: 1, Run: c11PongCallbackRun},
 			// the framing workload of C07 on a server-side stream connection with a busy handler or an application request
 			// monitor: what was accepted (not filtered) is dispatched once, in order, also when several frames share a read
 			{Name: "S-STREAM/accepted-frames", Weight: 1, Run: func(e *Env) { e.RuleRename = [2]string{"C07.", "C11.S"}; c07Run(e, false) }}},
 		Quick:    200000,
 		Thorough: 3000000,
-		Require:  []string{"nested.nonConfirmableRequest", "mid.peerRequestEqualsOwnOutstanding", "arrival.whileHandlerBlocked", "order.loopReplacedBefore", "readerLoop.replacedWhileInHandler", "monitor.dropsMessage", "server.connectionClosedWhileHandOffWaits", "nested.waitsForRequestSlot"},
+		Require:  []string{"nested.nonConfirmableRequest", "mid.peerRequestEqualsOwnOutstanding", "arrival.whileHandlerBlocked", "order.loopReplacedBefore", "readerLoop.replacedWhileInHandler", "monitor.dropsMessage", "server.connectionClosedWhileHandOffWaits", "nested.waitsForRequestSlot", "nested.requestFromPongCallback"},
 		Assume: []string{
 			"'processing continues while it waits' is judged as: a nested operation has returned at the quiescent point after its answer was handed to the connection (parked goroutines released first)",
 			"completeness (every accepted message dispatched) is only demanded of runs in which the connection stays open; order only of runs in which no handler blocked",
